@@ -622,3 +622,51 @@ Proof.
   exists dup_cfg. split; [reflexivity|]. split; [|split; reflexivity].
   intros H. apply keys_distinct_b_spec in H. vm_compute in H. discriminate.
 Qed.
+
+(* the source-level hypothesis gives the bijection as well *)
+Theorem sigassign_bijection_source_keys : forall g,
+  c_kind g = KTemplate -> subkeys_distinct g -> constraint_keys_distinct g ->
+  Forall2 (finding_for g) (assign_stmts g) (find_signal_assignments g).
+Proof. intros g Hk Hs Hc. apply sigassign_bijection; auto using subkeys_distinct_suffice. Qed.
+
+(* [keys_distinct] does NOT follow from the parser giving distinct statements
+   distinct ranges: the SSA cfg the real front end builds for
+
+     template D() {
+         signal input x;
+         signal (b, b) <-- (x % 2, x % 2);
+     }
+
+   (transcribed from the dump of the harness; known finding
+   C08-decl-tuple-duplicate-name).  split_declaration_into_single_nodes_and_
+   multi_substitution gives every element of a declaration tuple the
+   declaration's meta (39..71), the second declaration of `b` is renamed `b_0`
+   and both elements resolve to it: two `<--` statements, one Assignment key,
+   one finding. *)
+Definition kf_x : vname := {| vn_name := [120%N]; vn_suffix := None; vn_version := None |}.
+Definition kf_b : vname := {| vn_name := [98%N]; vn_suffix := None; vn_version := None |}.
+Definition kf_b0 : vname := {| vn_name := [98%N]; vn_suffix := Some [48%N]; vn_version := None |}.
+Definition kf_decl : meta := {| m_start := 39; m_end := 71; m_file := Some 0%N |}.
+Definition kf_rhe : expr :=
+  EInfix IMod (EVar kf_x {| kval := None; kdeg := Some (DLin, DLin) |})
+    (ENum 2 {| kval := Some (VField 2); kdeg := Some (DConst, DConst) |})
+    {| kval := None; kdeg := Some (DNonQuad, DNonQuad) |}.
+Definition kf_subst : stmt := SSubst kf_decl kf_b0 OpSig kf_rhe None (Some TSigInt).
+Definition kf_cfg : cfg :=
+  {| c_kind := KTemplate; c_params := [];
+     c_decls := [(kf_b, TSigInt); (kf_b0, TSigInt); (kf_x, TSigIn)];
+     c_blocks := [{| b_index := 0; b_depth := 0; b_preds := []; b_succs := [];
+       b_stmts := [ SDecl {| m_start := 19; m_end := 33; m_file := Some 0%N |} [kf_x] TSigIn [];
+                    SDecl kf_decl [kf_b] TSigInt []; SDecl kf_decl [kf_b0] TSigInt [];
+                    kf_subst; kf_subst ] |}] |}.
+
+Lemma keys_distinct_fails_on_lifted_source :
+  c_kind kf_cfg = KTemplate /\ ~ keys_distinct kf_cfg /\ ~ subkeys_distinct kf_cfg /\
+  length (assign_stmts kf_cfg) = 2 /\
+  find_signal_assignments kf_cfg =
+    [ {| r_code := CS0005; r_primary := [(39, 71, 0)%N]; r_secondary := [] |} ].
+Proof.
+  split; [reflexivity|]. split; [|split; [|split; reflexivity]].
+  - intros H. apply keys_distinct_b_spec in H. vm_compute in H. discriminate.
+  - intros H. apply subkeys_distinct_b_spec in H. vm_compute in H. discriminate.
+Qed.
